@@ -354,10 +354,10 @@ func c06StrNum(s string, n c06V) c06Tri {
 		if c06IntSpelledRe.MatchString(s) || exactEq {
 			return c06T(exactEq) // strconv.ParseInt reference: exact
 		}
-		if perr == nil && pf == float64(n.i) {
-			return c06Unspec // equal only after rounding to float64
+		if perr == nil && pf == float64(n.i) && r.IsInt() {
+			return c06Unspec // another integer that is equal only after rounding to float64
 		}
-		return c06False
+		return c06False // a numeral with a non-zero fraction denotes no integer, however small the fraction
 	}
 	// float
 	switch {
@@ -807,6 +807,10 @@ func c06Pool() []c06V {
 		"1000000", "1000000.0", "1e6", "1e+06", "1.0e6", "-1000000", "-1e6", "123456789", "1.23456789e8", "1000000000000000", "1e15",
 		"9007199254740992", "9007199254740993", "9007199254740992.0", "9223372036854775807", "-9223372036854775808", "9223372036854775808",
 		"1e21", "1000000000000000000000", "1e-7", "0.0000001", "1.7976931348623157e308", "5e-324", "1e400",
+		// fractions far below any fixed working precision: they denote no integer
+		"1.9999999999999999999999999999999999999999999999", "2.0000000000000000000000000000000000000000000001",
+		"0.99999999999999999999999999999999999999999999", "1000000.000000000000000000000000000000000000000001",
+		"2.0000000000000000000000000000000000000000000000",
 		// not numerals under any reading
 		"", "abc", "ABC", "1x", "1 2", "--1", " 1", "1 ", "true", "false", "nil", "1e", "1.2.3",
 		// accepted by strconv, not decimal numerals: unspecified, laws only
